@@ -77,7 +77,7 @@ fn inspection_line(rng: &mut Rng, snap: &Snapshot, stats: &mut Stats) -> String 
     // (a name that is not a function yet would be read as an array, which creates it)
     let has_fny = has_fnz && snap.functions.iter().any(|f| f.0 == "FNY");
     match rng.below(15) {
-        0 => "PRINT 1/0".into(),
+        0 => rng.s(&["PRINT 1/0", "PRINT \"AVG=\";1/0", "PRINT 7,1/0", "PRINT \"a\";\"b\";)", "PRINT 1;2;\"x\"+1", "? \"lead\",FNQ9(", "PRINT 3; : PRINT 4;1/0"]).to_string(),
         13 if has_fny => { stats.fn_fail_inspections += 1; "PRINT FNY(0)".into() }
         1 => "PRINT \"A\"+1".into(),
         2 => "LIST".into(),
@@ -417,8 +417,20 @@ fn run_case(ctx: &Ctx, index: u64, rep: &mut Report) {
         "stop_assign" => {
             // P' has `v = e` as a top-level statement; P has STOP there, the host types `v = e` and CONT
             let opts = GenOpts { inputs: true, stops: false, kf_permille: 0, failure_permille: 30, ..GenOpts::default() };
-            let g2 = prog::generate(&mut rng, &opts);
+            let mut g2 = prog::generate(&mut rng, &opts);
             let seed = rng.below(1 << 33);
+            // a quarter of the cases: the assignment (hence the STOP) is the last statement of the last line of the program
+            let mut forced: Option<(usize, usize)> = None;
+            if rng.chance(1, 4) {
+                if let Some(last) = g2.prog.lines.last_mut() {
+                    if matches!(last.stmts.last(), Some(Stmt::End)) {
+                        let k = last.stmts.len() - 1;
+                        last.stmts[k] = Stmt::Let { target: LValue::scalar("Z"), expr: num(5), keyword: false };
+                        forced = Some((g2.prog.lines.len() - 1, k));
+                        rep.count("stop_assign.stop_ends_the_program_text");
+                    }
+                }
+            }
             // candidate positions: top-level numeric scalar LETs without side effects in the expression
             let mut cands = vec![];
             for (li, l) in g2.prog.lines.iter().enumerate() {
@@ -440,7 +452,7 @@ fn run_case(ctx: &Ctx, index: u64, rep: &mut Report) {
                 rep.count("stop_assign.no_candidate");
                 return;
             }
-            let (li, si) = cands[rng.usize(cands.len())];
+            let (li, si) = forced.unwrap_or(cands[rng.usize(cands.len())]);
             let assign_text = g2.prog.lines[li].stmts[si].text();
             let mut g1 = g2.clone();
             g1.prog.lines[li].stmts[si] = Stmt::Stop;
